@@ -398,7 +398,17 @@ pub fn gen_skesk(t: &mut Tape) -> Gen {
         }
         _ => {
             let aead = *t.pick(&AEADS);
-            let s = s2k(t);
+            // the v6 packet delimits the S2K specifier by a length octet, so specifiers of reserved,
+            // private and unassigned types (opaque bodies) are well-formed here
+            let s = if t.chance(50) {
+                labels.push("skesk:v6-opaque-s2k-type".into());
+                let mut o = vec![*t.pick(&[2u8, 100, 105, 110, 5, 200, 255])];
+                let n_ = t.range(0, 20);
+                o.extend_from_slice(&rand_bytes(t, n_));
+                o
+            } else {
+                s2k(t)
+            };
             let ivl = [16usize, 15, 12][(aead - 1) as usize];
             v.push((3 + s.len() + ivl) as u8);
             v.push(sym);
